@@ -366,6 +366,26 @@ type Query { me: User @auth(role: USER) }
 		"gqlgen.yml": "schema:\n  - \"graph/*.graphqls\"\nexec:\n  layout: follow-schema\n  dir: graph\n  package: graph\nfederation:\n  filename: graph/federation.go\n  package: graph\n  version: 2\n" +
 			"model:\n  filename: graph/model/models_gen.go\n  package: model\nskip_mod_tidy: true\nskip_validation: true\n",
 	}})
+	// two autobind packages declaring the same Go type: the first listed wins, always
+	ps = append(ps, &project{Name: "autob2", Kind: "autobind-two-packages", Dirs: []string{"graph"}, Files: map[string]string{
+		"schema.graphql":    "type User { id: ID! name: String! }\ntype Team { id: ID! lead: User }\ntype Query { me: User team: Team }\n",
+		"overrides/user.go": "package overrides\n\ntype User struct {\n\tID   string\n\tName string\n}\n\ntype Team struct {\n\tID   string\n\tLead *User\n}\n",
+		"store/user.go":     "package store\n\ntype User struct {\n\tID   string\n\tName string\n\tRow  int\n}\n\ntype Team struct {\n\tID   string\n\tLead *User\n\tRow  int\n}\n",
+		"extra/user.go":     "package extra\n\ntype User struct {\n\tID   string\n\tName string\n\tX    bool\n}\n",
+		"gqlgen.yml": "schema:\n  - \"*.graphql\"\nexec:\n  filename: graph/generated.go\n  package: graph\n" +
+			"model:\n  filename: graph/model/models_gen.go\n  package: model\nautobind:\n  - \"verif/work/gen/c18/autob2/overrides\"\n  - \"verif/work/gen/c18/autob2/store\"\n  - \"verif/work/gen/c18/autob2/extra\"\nskip_mod_tidy: true\nskip_validation: true\n",
+	}})
+	// follow-schema output importing two packages with the same package name from different files
+	ps = append(ps, &project{Name: "samepkg", Kind: "same-package-name-imports", Dirs: []string{"graph"}, Files: map[string]string{
+		"a.graphql":        "type Alpha { id: ID! }\ntype Query { alpha: Alpha beta: Beta gamma: Gamma }\n",
+		"b.graphql":        "type Beta { id: ID! }\n",
+		"c.graphql":        "type Gamma { id: ID! a: Alpha b: Beta }\n",
+		"one/types/t.go":   "package types\n\ntype Alpha struct{ ID string }\n",
+		"two/types/t.go":   "package types\n\ntype Beta struct{ ID string }\n",
+		"three/types/t.go": "package types\n\ntype Gamma struct {\n\tID string\n}\n",
+		"gqlgen.yml": "schema:\n  - \"*.graphql\"\nexec:\n  layout: follow-schema\n  dir: graph\n  package: graph\n" +
+			"model:\n  filename: graph/model/models_gen.go\n  package: model\nmodels:\n  Alpha: {model: verif/work/gen/c18/samepkg/one/types.Alpha}\n  Beta: {model: verif/work/gen/c18/samepkg/two/types.Beta}\n  Gamma: {model: verif/work/gen/c18/samepkg/three/types.Gamma}\nskip_mod_tidy: true\nskip_validation: true\n",
+	}})
 	// several runtime directives on the same executable locations: the generated middleware switch
 	// has one case per directive
 	ps = append(ps, &project{Name: "execdirs", Kind: "executable-directives", Dirs: []string{"graph"}, Files: map[string]string{
